@@ -189,3 +189,31 @@ func genCRLFProgs() Gen {
 		}
 	}
 }
+
+// constPressure: the chunk starts with a constructor of n distinct numeric constants, so every
+// constant the program's main function uses afterwards (method and field names, global names,
+// strings, numbers) has an index beyond the 256 that fit into an instruction's RK operand and must
+// be loaded into a register first - the operand forms the compiler and the VM rarely see.
+func constPressure(n int) func(*Block) *Block {
+	return func(c *Block) *Block {
+		var items []Field
+		for i := 0; i < n; i++ {
+			items = append(items, Pos1(Num(float64(100000+i)+0.5)))
+		}
+		st := []Stat{Local1("__cp", TableE(items...)), Emit(Str("constants"), Un("#", Name("__cp")), Index(Name("__cp"), Num(float64(n))))}
+		return Blk(append(st, c.Stats...)...)
+	}
+}
+
+// lockMeta: the program runs with a setmetatable that first puts a __metatable field into the
+// metatable it installs. Lua consults that field in getmetatable and setmetatable only; every event
+// (__call, arithmetic, comparison, concat, __index, __newindex, __tostring ...) still finds its
+// handler in the real metatable.
+func lockMeta(c *Block) *Block {
+	wrap := Func(names("t", "mt"), false,
+		If(Bin("and", Bin("==", CallN("type", Name("mt")), Str("table")), Bin("==", CallN("rawget", Name("mt"), Str("__metatable")), Nil())),
+			CallS(Name("rawset"), Name("mt"), Str("__metatable"), Str("locked"))),
+		Return(CallN("__setmt", Name("t"), Name("mt"))))
+	st := []Stat{Local1("__setmt", Name("setmetatable")), Assign1(Name("setmetatable"), wrap)}
+	return Blk(append(st, c.Stats...)...)
+}
